@@ -4,24 +4,34 @@ lines on stdin and prints one line per operation.  Core-only (no Mathlib) so it
 links as a native executable.
 -/
 import Verif.Drv.Runner
+import Verif.Drv.Conc
+import Verif.Drv.WalletLedger
 import Verif.Drv.Sync
 import Verif.Drv.RhpClient
+import Verif.Drv.Rhp
+import Verif.Drv.Formation
 import Verif.Drv.Funding
 import Verif.Drv.KV
 import Verif.Drv.Chain
+import Verif.Drv.Elements
 import Verif.Drv.Pool
 import Verif.Drv.Seed
 
 open Verif.Drv
 
 def registry : List (String × List (String × Model)) := [
+  ("conc", concModels),
   ("sync", syncModels),
   ("c10", c10Models),
+  ("rhp", rhpModels),
+  ("c16", c16Models),
   ("kv", kvModels),
   ("chain", chainModels),
+  ("elements", elementsModels),
   ("pool", poolModels),
   ("seed", seedModels),
-  ("funding", fundingModels)
+  ("funding", fundingModels),
+  ("ledger", ledgerModels)
 ]
 
 def findModel (ws : List String) : Option (Model × List String) :=
